@@ -847,6 +847,9 @@ bool bloom_filter_alloc<A>::is_compatible(const bloom_filter_alloc& other) const
 
 template<typename A>
 void bloom_filter_alloc<A>::union_with(const bloom_filter_alloc& other) {
+  if (is_read_only_) {
+    throw std::logic_error("Cannot modify a read-only filter");
+  }
   if (!is_compatible(other)) {
     throw std::invalid_argument("Incompatible bloom filters");
   }
@@ -856,6 +859,9 @@ void bloom_filter_alloc<A>::union_with(const bloom_filter_alloc& other) {
 
 template<typename A>
 void bloom_filter_alloc<A>::intersect(const bloom_filter_alloc& other) {
+  if (is_read_only_) {
+    throw std::logic_error("Cannot modify a read-only filter");
+  }
   if (!is_compatible(other)) {
     throw std::invalid_argument("Incompatible bloom filters");
   }
@@ -865,6 +871,9 @@ void bloom_filter_alloc<A>::intersect(const bloom_filter_alloc& other) {
 
 template<typename A>
 void bloom_filter_alloc<A>::invert() {
+  if (is_read_only_) {
+    throw std::logic_error("Cannot modify a read-only filter");
+  }
   uint64_t bits_set = bit_array_ops::invert(bit_array_, capacity_bits_ >> 3);
   update_num_bits_set(bits_set);
 }
